@@ -35,7 +35,7 @@ FileStep ==
   /\ UNCHANGED cvars
   /\ bad' = IF ~FileIsCase THEN {"X_not_a_case"} ELSE
             Clause(PrivateWhenCreated', "P_new_file_not_private")
-            \cup Clause(R.wpass = "empty" \/ R.wres = "ok", "P_write_failed")
+            \cup Clause(R.wpass = "empty" \/ R.wpass \in OverLimit \/ R.wres = "ok", "P_write_failed")
             \cup Clause(RoundTrip', "P_roundtrip_failed")
             \cup Clause(PassNeeded', "P_loaded_without_passphrase")
             \cup Clause(NoOtherKey', "P_loaded_other_key")
@@ -43,6 +43,7 @@ FileStep ==
             \cup Clause(ExactCreateMode', "C_create_mode_not_0600_minus_umask")
             \cup Clause(ExistingModeKept', "C_existing_mode_changed")
             \cup Clause(R.wpass # "empty" \/ R.wres # "ok", "C_empty_passphrase_accepted")
+            \cup Clause(R.wpass \notin OverLimit \/ R.wres # "ok", "C_over_limit_passphrase_accepted")
             \cup Clause(R.lres \in ExpectedClasses, "C_load_answer_outside_model")
 
 \* ---- compare records
